@@ -74,6 +74,8 @@ def genq(rng, prop, job):
 
 def gen(rng, prop, job):
     from . import m3_lock
+    if job.get("hostile"):
+        return m3_lock.gen_hostile(rng)
     if job.get("debug"):
         # Lock(debug=True): the same programs with the debug prints on (they read Lock.waiting once more and, without a till,
         # raise inside wait()'s try block): monitors only
@@ -117,6 +119,9 @@ def make_jobs(prop, tier, seed):
     if prop in ("C05", "C06", "C20"):
         for j in range(2 if tier == "quick" else 12):
             jobs.append({"kind": "explore", "debug": True, "prop": prop, "seed": seed * 67867967 + j, "scenarios": 8, "schedules": 6, "no_driver": True})
+    if prop == "C05":
+        for j in range(2 if tier == "quick" else 8):
+            jobs.append({"kind": "explore", "hostile": True, "prop": prop, "seed": seed * 2750159 + j, "scenarios": 8, "schedules": 5, "no_driver": True})
     if prop == "C20":
         for j in range(4 if tier == "quick" else 24):
             jobs.append({"kind": "explore", "side": "queue", "prop": prop, "seed": seed * 32452843 + j, "scenarios": 8, "schedules": 6})
